@@ -1,7 +1,188 @@
-(* C02 — panic iff the source semantics fail; first failure wins.  (The panic-record
-   algebra is added by Panic/PanicProofs.v; this file pins the specification.) *)
-From GV Require Import Base.Util Lang.Ast Lang.Sem.
+(* C02 — panic iff the source semantics fail; first failure wins; untaken code is silent.
+   This file: the panic-record layer (push_panic_if / peek_panic / replace_panic_with /
+   mux_panic / EvalPanic::parse) of the REPAIRED code (/repo commit c5c1727), plus the
+   witnesses that the code as found refutes the same statements.  [inv] is the concrete
+   builder invariant of Builder/BuilderProofs.v (it holds of new_builder and is kept by every
+   builder operation); the generic lemmas of Panic/PanicProofs.v (stated for any invariant
+   with [builder_ops_sound]) are instantiated with [builder_sound]. *)
+From GV Require Import Base.Util Base.NMap Builder.Builder Builder.Build Builder.BuilderSem
+  Builder.BuilderSpec Builder.BuilderProofs Panic.PanicRec Panic.PanicSem Panic.PanicProofs.
 
+(* the record the builder starts with is PanicResult::ok(), the 161 wires Build.v prunes from *)
+Theorem C02_panic_ok_wires : prec_wires panic_ok = panic_ok_wires.
+Proof. reflexivity. Qed.
+Print Assumptions C02_panic_ok_wires.
+
+(* push_panic_if: FIRST FAILURE WINS.  The observation after the push is the old one if the
+   record had already panicked, else (reason, location) of this push iff its condition holds.
+   In particular a raised panic is never dropped or overwritten, also when [cond] was pushed
+   before (cache hit). *)
+Theorem C02_push_obs : forall b P cond r m, inv b -> pstate_ok b P -> valid b cond ->
+  exists P' b', push_panic_if b P cond r m = Ok (P', b') /\ inv b' /\ ext b b' /\ pstate_ok b' P' /\
+    forall inp, ins_ok b inp ->
+      obs inp b' (ps_rec P') =
+        match obs inp b (ps_rec P) with
+        | Some x => Some x
+        | None => if den inp b cond then Some (preason_num r, ploc32 m) else None
+        end.
+Proof. exact (push_obs inv builder_sound). Qed.
+Print Assumptions C02_push_obs.
+
+(* mux_panic: the merged record is the then-state's where the condition holds, else the
+   else-state's: whatever the branch not taken pushed is silent. *)
+Theorem C02_mux_obs : forall b c T F, inv b -> valid b c -> pstate_ok b T -> pstate_ok b F ->
+  exists P' b', mux_panic b c T F = Ok (P', b') /\ inv b' /\ ext b b' /\ pstate_ok b' P' /\
+    forall inp, ins_ok b inp ->
+      obs inp b' (ps_rec P') = if den inp b c then obs inp b (ps_rec T) else obs inp b (ps_rec F).
+Proof. exact (mux_obs inv builder_sound). Qed.
+Print Assumptions C02_mux_obs.
+
+(* cache_inv is part of [pstate_ok]; it is what makes a cache hit a no-op *)
+Theorem C02_cache_inv : forall b P cond r m, pstate_ok b P -> nmem cond (ps_cache P) = true ->
+  push_panic_if b P cond r m = Ok (P, b) /\
+  forall inp, ins_ok b inp ->
+    (den inp b cond = true -> den inp b (pr_flag (ps_rec P)) = true) /\
+    push_spec (obs inp b (ps_rec P)) (den inp b cond) r m = obs inp b (ps_rec P).
+Proof. exact cache_hit_noop. Qed.
+Print Assumptions C02_cache_inv.
+
+(* The usage protocol of compile.rs (If / Match arm / && / || / JoinLoop: both branches start
+   from the state saved before, then mux): the record computes the reference semantics
+   [psem] = first failing push on the executed path. *)
+Theorem C02_protocol : forall code b P, inv b -> pstate_ok b P -> Forall (valid b) (pcode_conds code) ->
+  exists P' b', run_pcode b P code = Ok (P', b') /\ inv b' /\ ext b b' /\ pstate_ok b' P' /\
+    forall inp, ins_ok b inp ->
+      obs inp b' (ps_rec P') = psem (den inp b) code (obs inp b (ps_rec P)).
+Proof. exact (run_pcode_obs inv builder_sound). Qed.
+Print Assumptions C02_protocol.
+
+(* a panic once raised is never dropped or overwritten by code that runs afterwards *)
+Theorem C02_sticky : forall code b P, inv b -> pstate_ok b P -> Forall (valid b) (pcode_conds code) ->
+  exists P' b', run_pcode b P code = Ok (P', b') /\
+    forall inp x, ins_ok b inp -> obs inp b (ps_rec P) = Some x -> obs inp b' (ps_rec P') = Some x.
+Proof. exact (sticky inv builder_sound). Qed.
+Print Assumptions C02_sticky.
+
+(* From a fresh builder: the observation is the reference semantics started without a panic;
+   the panic_type field ALWAYS decodes to a valid reason number (flag set or not), hence
+   EvalPanic::parse never reaches PanicReason::from_num's panic! and returns exactly the
+   observation. *)
+Theorem C02_reason_always_valid : forall dedup inputs code,
+  let b0 := new_builder dedup inputs in
+  Forall (valid b0) (pcode_conds code) ->
+  exists P' b', run_pcode b0 pstate_new code = Ok (P', b') /\ pstate_ok b' P' /\
+    forall inp, ins_ok b0 inp ->
+      obs inp b' (ps_rec P') = psem (den inp b0) code None /\
+      1 <= rec_type inp b' (ps_rec P') <= 3 /\
+      forall rest, parse_panic (rec_bits inp b' (ps_rec P') ++ rest)
+                   = parse_spec (psem (den inp b0) code None) rest
+                   /\ parse_panic (rec_bits inp b' (ps_rec P') ++ rest) <> Crash.
+Proof. exact (protocol_from_new inv builder_sound). Qed.
+Print Assumptions C02_reason_always_valid.
+
+(* the decoder on any well-formed record *)
+Theorem C02_parse_record : forall b P inp rest, pstate_ok b P -> ins_ok b inp ->
+  parse_panic (rec_bits inp b (ps_rec P) ++ rest) = parse_spec (obs inp b (ps_rec P)) rest /\
+  parse_panic (rec_bits inp b (ps_rec P) ++ rest) <> Crash.
+Proof. exact parse_record. Qed.
+Print Assumptions C02_parse_record.
+
+(* C06 at this layer: the repaired mux_panic emits no gate in hash order; the only iteration
+   left (set intersection) yields the same builder, record and set members for every order. *)
+Theorem C02_mux_panic_order_irrelevant : forall keys1 keys2 b c T F,
+  (forall k, In k keys1 <-> nmem k (ps_cache T) = true) ->
+  (forall k, In k keys2 <-> nmem k (ps_cache T) = true) ->
+  match mux_panic_keys keys1 b c T F, mux_panic_keys keys2 b c T F with
+  | Ok (P1, b1), Ok (P2, b2) =>
+      b1 = b2 /\ ps_rec P1 = ps_rec P2 /\ forall k, nmem k (ps_cache P1) = nmem k (ps_cache P2)
+  | Crash, Crash | OutOfFuel, OutOfFuel => True
+  | _, _ => False
+  end.
+Proof. exact mux_panic_two_orders. Qed.
+Print Assumptions C02_mux_panic_order_irrelevant.
+
+(* non-vacuity / the code as found: concrete runs (vm_compute) *)
+Theorem C02_push_cached_refuted :
+  let b0 := new_builder true [2] in
+  match push_panic_if_old b0 pstate_old_new 2 Overflow (ex_loc 1) with
+  | Ok (P1, b1) =>
+    match push_panic_if_old b1 P1 3 DivByZero (ex_loc 2) with
+    | Ok (P2, b2) =>
+      match push_panic_if_old b2 P2 2 OutOfBounds (ex_loc 3) with
+      | Ok (P3, b3) =>
+          let inp := [false; true] in
+          obs inp b2 (po_rec P2) = Some (2, ex_loc 2) /\ obs inp b3 (po_rec P3) = None
+      | _ => False
+      end
+    | _ => False
+    end
+  | _ => False
+  end.
+Proof. exact push_cached_refuted. Qed.
+Print Assumptions C02_push_cached_refuted.
+
+Theorem C02_push_cached_repaired :
+  let b0 := new_builder true [2] in
+  match run_pcode b0 pstate_new
+          (PSeq (PPush 2 Overflow (ex_loc 1)) (PSeq (PPush 3 DivByZero (ex_loc 2)) (PPush 2 OutOfBounds (ex_loc 3)))) with
+  | Ok (P3, b3) =>
+      obs [false; true] b3 (ps_rec P3) = Some (2, ex_loc 2) /\
+      obs [true; true] b3 (ps_rec P3) = Some (1, ex_loc 1) /\
+      obs [false; false] b3 (ps_rec P3) = None
+  | _ => False
+  end.
+Proof. exact push_cached_repaired. Qed.
+Print Assumptions C02_push_cached_repaired.
+
+(* code as found: a condition cached in one branch only survives the mux; the later hit
+   reports the location inside the branch that was NOT taken (X = false, A = true) *)
+Theorem C02_one_sided_key_refuted :
+  let b0 := new_builder true [2] in
+  let P0 := pstate_old_new in
+  match push_panic_if_old b0 P0 2 Overflow (ex_loc 1) with
+  | Ok (PT, b1) =>
+    match mux_panic_old [2] b1 3 PT P0 with
+    | Ok (PM, b2) =>
+      match push_panic_if_old b2 PM 2 DivByZero (ex_loc 2) with
+      | Ok (P3, b3) => obs [true; false] b3 (po_rec P3) = Some (1, ex_loc 1)
+      | _ => False
+      end
+    | _ => False
+    end
+  | _ => False
+  end.
+Proof. exact one_sided_key_refuted. Qed.
+Print Assumptions C02_one_sided_key_refuted.
+
+(* code as found, C06: two iteration orders of the cache keys, two different gate lists *)
+Theorem C02_mux_panic_old_order_refuted :
+  let b0 := new_builder false [3] in
+  let P0 := pstate_old_new in
+  match push_panic_if_old b0 P0 2 Overflow (ex_loc 1) with
+  | Ok (T1, b1) =>
+    match push_panic_if_old b1 T1 3 DivByZero (ex_loc 2) with
+    | Ok (T2, b2) =>
+      match push_panic_if_old b2 P0 3 DivByZero (ex_loc 3) with
+      | Ok (F1, b3) =>
+        match push_panic_if_old b3 F1 2 Overflow (ex_loc 4) with
+        | Ok (F2, b4) =>
+          match mux_panic_old [2; 3; 2; 3] b4 4 T2 F2, mux_panic_old [3; 2; 3; 2] b4 4 T2 F2 with
+          | Ok (_, bA), Ok (_, bB) => gates_eqb (b_gates_rev bA) (b_gates_rev bB) = false
+          | _, _ => False
+          end
+        | _ => False
+        end
+      | _ => False
+      end
+    | _ => False
+    end
+  | _ => False
+  end.
+Proof. exact mux_panic_old_order_refuted. Qed.
+Print Assumptions C02_mux_panic_old_order_refuted.
+
+(* ---------------------------------------------------------------- the specification side *)
+From GV Require Import Lang.Ast Lang.Sem.
 Open Scope N_scope.
 
 (* checked arithmetic of the specification: a result is produced iff it is representable *)
